@@ -9,7 +9,7 @@ use crate::icd::{self, HEADER};
 use crate::rng::Rng;
 use crate::streamsim::{damage, ReaderPlan, SimReader, Trip};
 use crate::tape::Tape;
-use crate::workload::{build_stream, push_message, Stream, StreamOpts};
+use crate::workload::{build_stream, extreme, push_message, StreamOpts};
 use nexrad_decode::messages::clutter_filter_map::decode_clutter_filter_map;
 use nexrad_decode::messages::digital_radar_data::decode_digital_radar_data;
 use nexrad_decode::messages::rda_status_data::decode_rda_status_message;
@@ -197,120 +197,6 @@ fn reader_faults(tape: &mut Tape, image_len: usize) -> ReaderPlan {
 }
 
 /// Field-directed extremes written at known offsets of a type-31 message. Returns a description.
-fn vcp_extreme(tape: &mut Tape, s: &mut Stream) -> Option<String> {
-    let idx: Vec<usize> = s.msgs.iter().enumerate().filter(|(_, m)| m.mtype == 5).map(|(i, _)| i).collect();
-    if idx.is_empty() {
-        return None;
-    }
-    let mi = idx[tape.draw(idx.len() as u64) as usize];
-    let base = s.msgs[mi].off + HEADER;
-    let (off, what, v) = match tape.draw(2) {
-        0 => (0usize, "message size", [0u16, 5, 10, 11, 65535][tape.draw(5) as usize]),
-        _ => (6usize, "cut count", [65535u16, 52, 53, 1000, 0][tape.draw(5) as usize]),
-    };
-    if base + off + 2 <= s.bytes.len() {
-        s.bytes[base + off..base + off + 2].copy_from_slice(&v.to_be_bytes());
-    }
-    Some(format!("message {} (VCP): {} := {}", mi, what, v))
-}
-
-fn extreme(tape: &mut Tape, s: &mut Stream) -> Option<String> {
-    if tape.draw(6) == 5 {
-        if let Some(n) = vcp_extreme(tape, s) {
-            return Some(n);
-        }
-    }
-    let idx: Vec<usize> = s.msgs.iter().enumerate().filter(|(_, m)| m.t31.is_some()).map(|(i, _)| i).collect();
-    if idx.is_empty() {
-        return None;
-    }
-    let mi = idx[tape.draw(idx.len() as u64) as usize];
-    let m = s.msgs[mi].clone();
-    let t = m.t31.as_ref().unwrap();
-    let base = m.off;
-    let b = &mut s.bytes;
-    let put16 = |b: &mut Vec<u8>, off: usize, v: u16| {
-        if off + 2 <= b.len() {
-            b[off..off + 2].copy_from_slice(&v.to_be_bytes());
-        }
-    };
-    let put32 = |b: &mut Vec<u8>, off: usize, v: u32| {
-        if off + 4 <= b.len() {
-            b[off..off + 4].copy_from_slice(&v.to_be_bytes());
-        }
-    };
-    let nblocks = t.blocks.len();
-    let kind = tape.weighted(&[2, 3, 3, 2, 2, 1, 1]);
-    Some(match kind {
-        0 => {
-            let v = [65535u16, 0, 1, 255, 256, 11, 32768][tape.draw(7) as usize];
-            put16(b, base + t.off_block_count, v);
-            format!("message {}: block count := {}", mi, v)
-        }
-        1 if nblocks > 0 => {
-            let k = tape.draw(nblocks as u64) as usize;
-            let v = match tape.draw(7) {
-                0 => 0u32,
-                1 => 4,
-                2 => 31,
-                3 => (m.len - HEADER) as u32,
-                4 => (m.len - HEADER) as u32 - 1,
-                5 => 0xFFFF_FFFF,
-                _ => 0x7FFF_FFFF,
-            };
-            put32(b, base + t.off_pointers + 4 * k, v);
-            format!("message {}: pointer {} := {}", mi, k, v)
-        }
-        2 if nblocks > 1 => {
-            // overlapping / duplicated pointers
-            let k = tape.draw(nblocks as u64) as usize;
-            let j = tape.draw(nblocks as u64) as usize;
-            let target = (t.blocks[j].off - HEADER) as u32 + [0u32, 1, 4, 28][tape.draw(4) as usize];
-            put32(b, base + t.off_pointers + 4 * k, target);
-            format!("message {}: pointer {} := into block {} ({})", mi, k, j, target)
-        }
-        3 if nblocks > 0 => {
-            let k = tape.draw(nblocks as u64) as usize;
-            let names: [&[u8; 3]; 7] = [b"XYZ", b"ref", b"\xff\xfe\xfd", b"   ", b"SW\0", b"VOL", b"REF"];
-            let n = names[tape.draw(7) as usize];
-            let off = base + t.blocks[k].off + 1;
-            if off + 3 <= b.len() {
-                b[off..off + 3].copy_from_slice(n);
-            }
-            format!("message {}: block {} name := {:?}", mi, k, String::from_utf8_lossy(n))
-        }
-        4 => {
-            let moments: Vec<&icd::BlockMap> = t.blocks.iter().filter(|x| x.gates_off.is_some()).collect();
-            if moments.is_empty() {
-                return None;
-            }
-            let bm = moments[tape.draw(moments.len() as u64) as usize];
-            let v = [65535u16, 1841, 32768, 0][tape.draw(4) as usize];
-            put16(b, base + bm.gates_off.unwrap(), v);
-            format!("message {}: {} gate count := {}", mi, bm.name, v)
-        }
-        5 => {
-            let moments: Vec<&icd::BlockMap> = t.blocks.iter().filter(|x| x.word_off.is_some()).collect();
-            if moments.is_empty() {
-                return None;
-            }
-            let bm = moments[tape.draw(moments.len() as u64) as usize];
-            let v = [0u8, 255, 7, 9, 32, 64, 1][tape.draw(7) as usize];
-            let off = base + bm.word_off.unwrap();
-            if off < b.len() {
-                b[off] = v;
-            }
-            format!("message {}: {} word size := {}", mi, bm.name, v)
-        }
-        _ => {
-            // header type code / size field
-            let v = tape.draw(256) as u8;
-            b[base + 15] = v;
-            format!("message {}: type code := {}", mi, v)
-        }
-    })
-}
-
 /// Crafted amplification attempts: many pointers onto one block, many tiny messages, blocks that
 /// overlap - inputs whose decoded size might grow faster than the input.
 fn amplification(tape: &mut Tape, r: &mut Rng) -> (Vec<u8>, String) {
